@@ -54,7 +54,37 @@ UNIT = dict(
          must_fire={'A_FADD': 1, 'A_LOAD': 4, 'A_CASW': 1, 'A_FOR': 1, 'A_FSUB': 2, 'call:diff': 3, 'call:remap_index': 1,
                     'self_call:catchup': 1, 'subst:value_ref': 2, 'subst:label_stmt': 1}),
   ],
-  runs=[],
-  obligations={},
-  canaries=[],
+  runs=[
+    dict(id='remap', entry='h_remap', unwindset=['find_last_bit_set.0:66'], cls='unbounded',
+         note='capacity = 2^c for symbolic c in 0..32, loop-free apart from find_last_bit_set (complete at 65 iterations)'),
+  ] + [dict(id='init_%s_c%d' % (t, c), entry='h_init_' + t, defs={'CAP': c}, unwind=2 * c + 2, tiers=tiers, cls='shape-complete',
+            note='constructor loops run over the 2*CAP slots')
+       for t in ('empty', 'full', 'first_used', 'first_empty') for c, tiers in ((1, ['quick', 'thorough']), (2, ['quick', 'thorough']), (4, ['quick', 'thorough']), (8, ['thorough']))
+  ] + [dict(id='%s_c%d_f%d' % (op, c, f), entry='h_' + op, defs={'CAP': c, 'Finalizable': f, 'G': 2 if f else 0, 'PopRetries': 1},
+            unwind=(5 if f else 3), unwindset=['build.0:%d' % (2 * c + 1), 'represents.0:%d' % (2 * c + 1), 'havoc_inputs.0:%d' % (c + 1), 'havoc_inputs.1:%d' % (2 * c + 1),
+                                                'abs_of_inputs.0:%d' % (c + 1), 'abs_dequeue.0:%d' % (c + 1), 'havoc_ring.0:%d' % (2 * c + 1)],
+            tiers=tiers, cls='shape-complete' if not f else 'bounded', timeout=3000,
+            note='from ANY state of Inv_S (head position < 2^61, arbitrary older cycles and safe bits); retry loops complete within the unwinding (unwinding assertions)'
+                 + ('; finalized rings: at most G=2 burnt tail tickets' if f else ''))
+       for op in ('enq', 'deq') for f in (0, 1) for c, tiers in ((1, ['quick', 'thorough']), (2, ['quick', 'thorough']), (4, ['thorough']))
+  ] + [
+    dict(id='finalize', entry='h_finalize', defs={'CAP': 2, 'Finalizable': 1, 'G': 2}, unwind=6, cls='shape-complete'),
+    dict(id='catchup_f0', entry='h_catchup', defs={'CAP': 2, 'Finalizable': 0}, unwind=6, cls='unbounded'),
+    dict(id='catchup_f1', entry='h_catchup', defs={'CAP': 2, 'Finalizable': 1}, unwind=6, cls='unbounded'),
+  ],
+  obligations={
+    'scq.remap.shift': dict(deciding=True, text='calc_remap_shift(2^c) = max(c-2,0) for c in 0..32, and remap_index\'s own assert on (shift, n) holds'),
+    'scq.remap.bijective': dict(deciding=True, text='for every capacity 2^c, c in 0..32, with its calc_remap_shift: remap_index maps positions [0,n) one-to-one into [0,n), n = 2*capacity, and depends only on the position modulo n'),
+    'scq.init.inv': dict(deciding=True, text='each of the four constructors allocates 2*capacity words and establishes Inv_S with the abstract content its tag names (empty: []; full: [0..cap); first_used: [0]; first_empty: [1..cap), head at 1)'),
+    'scq.enqueue.appends': dict(deciding=True, text='enqueue(v) from any Inv_S state with fewer than cap entries: returns true, content = old ++ [v], head unchanged, Inv_S holds (threshold = 3cap-1); on a finalized ring (Finalizable) returns false and only burns a tail ticket'),
+    'scq.dequeue.takes_first': dict(deciding=True, text='dequeue from a non-empty Inv_S state returns the first index, content = tail(old), head advanced by one, Inv_S holds'),
+    'scq.dequeue.empty_iff': dict(deciding=True, text='dequeue returns false iff the ring is abstractly empty; then the result variable is untouched and catchup has made tail == head again (or the threshold ran out on a finalized ring)'),
+    'scq.inv.preserved': dict(deciding=True, text='a failed dequeue leaves a state of Inv_S with empty content'),
+    'scq.finalized.stable': dict(deciding=True, text='no ring operation clears the finalized bit of _tail (nikolaev_queue relies on it: a node, once finalized, never accepts another push)'),
+    'scq.finalize.sets': dict(deciding=True, text='finalize sets the finalized bit and nothing else; set_threshold(3cap-1) keeps Inv_S'),
+    'scq.catchup.restores': dict(deciding=True, text='catchup(tail, head) with tail behind head moves the tail position to the head position and writes nothing else'),
+  },
+  canaries=['remap.rotating', 'remap.identity', 'remap.max', 'init.empty', 'init.full', 'init.first_used', 'init.first_empty',
+            'enq.appended', 'enq.last_free', 'enq.finalized', 'deq.took', 'deq.took_last', 'deq.empty_threshold', 'deq.empty_catchup', 'deq.empty_gap',
+            'finalize.fresh', 'catchup.finalized', 'catchup.plain'],
 )
